@@ -36,7 +36,7 @@ fn boundaries_u32() -> Vec<u32> {
     v
 }
 fn strings() -> Vec<String> {
-    vec![String::new(), "a".into(), "é".into(), "cmr10".into(), "x".repeat(254), "y".repeat(255), format!("{}é", "z".repeat(253))]
+    vec![String::new(), "a".into(), "é".into(), "cmr10".into(), "x".repeat(254), "y".repeat(255), format!("{}é", "z".repeat(253)), "€𝐚".into(), format!("{}𝐚", "w".repeat(251))]
 }
 
 /// Every op variant at every operand boundary.
@@ -67,7 +67,7 @@ fn full_menu() -> Vec<Op> {
         ops.push(Op::TypesetChar { char: u, move_h: true });
         ops.push(Op::TypesetChar { char: u, move_h: false });
         ops.push(Op::EnableFont(u));
-        for s in strings().iter().take(4) {
+        for s in strings().iter().take(4).chain(strings().iter().skip(7)) {
             ops.push(Op::DefineFont { number: u, checksum: !u, at_size: u.wrapping_add(5), design_size: 10 << 20, area: s.clone(), name: "n".into() });
         }
         ops.push(Op::Preamble { dvi_format: 2, unit_numerator: u, unit_denominator: 473628672, magnification: u ^ 1000, comment: " TeX output".into() });
@@ -623,6 +623,25 @@ fn main() {
             check_bytes(i, &s, acc);
         });
     }
+    // F4b: every truncation of the encoding of every menu op (a fault inside every payload)
+    {
+        let m = &menu;
+        let small: Vec<usize> = (0..m.len()).filter(|i| expected_len(&m[*i]).map(|l| l <= 600).unwrap_or(false)).collect();
+        let offsets: Vec<u64> = small.iter().scan(0u64, |acc, i| { let o = *acc; *acc += expected_len(&m[*i]).unwrap() as u64; Some(o) }).collect();
+        let n: u64 = small.iter().map(|i| expected_len(&m[*i]).unwrap() as u64).sum();
+        let small = &small;
+        let offsets = &offsets;
+        ctx.family("op-truncations", "the encoding of every menu op (<= 600 bytes) cut at every length short of the full encoding", n, |i, acc| {
+            let k = match offsets.binary_search(&i) { Ok(k) => k, Err(k) => k - 1 };
+            let op = &m[small[k]];
+            let cut = (i - offsets[k]) as usize;
+            let mut b = vec![];
+            op.serialize(&mut b);
+            b.truncate(cut);
+            check_bytes(i, &b, acc);
+            acc.count("op_encoding_truncated_inside_payload");
+        });
+    }
     // F5: VarRemover, every sequence, no merging
     {
         let k = alpha.len() as u64;
@@ -656,6 +675,7 @@ fn main() {
     ctx.require("setvar_to_zero_before_mark", "a variable is set to 0 after having been non-zero, before a typeset op");
     ctx.require("same_var_set_twice", "the same variable is assigned twice in one history");
     ctx.require("stack_depth_ge_2", "two pushes are open at the end of a history");
+    ctx.require("op_encoding_truncated_inside_payload", "an op encoding is cut inside its payload");
     ctx.finish("round trip: op sequences enumerated from boundary menus (non-trivial = some op needs a multi-byte operand); bytes: every short byte string (non-trivial = parses to >= 1 op, then checked for parse/serialize/parse stability); VarRemover: every history over the alphabet (non-trivial = contains a variable op and a typeset op), compared with an independent position tracker, plus BFS with state merging");
 }
 
